@@ -168,6 +168,43 @@ def build():
     one(r"^\s*self\.0\.cmp\(\s*&other\.0\s*\)\s*$", fn_body(ser, "canonical_cmp", after="CanonicalOrd for Serial"), "Serial::canonical_cmp")
     defs.append(("timestamp_canonical_is_u32_order", "bool", "true"))
 
+    # ---- signature cache key: the signed data (RRSIG RDATA fields + owner + canonical RRset), the RRSIG and the key
+    cc = fn_body(grp, "check_sig_cached")
+    one(r"sig\.data\(\)\s*\.signed_data\(&mut\s+signed_data,\s*&mut\s+self\.rr_set\(\)\)", cc, "cache key: signed data of this RRset")
+    one(r"with_infallible\(\|\|\s*key\.compose_canonical_rdata\(&mut\s+buf\)\)", cc, "cache key: key rdata")
+    one(r"with_infallible\(\|\|\s*sig\.data\(\)\.compose_canonical_rdata\(&mut\s+buf\)\)", cc, "cache key: rrsig rdata")
+    one(r"let\s+cache_key\s*=\s*SigKey\(\s*signed_data,\s*sig_hash\.as_ref\(\)\.to_vec\(\),\s*key_hash\.as_ref\(\)\.to_vec\(\),?\s*\);", cc, "cache key components")
+    one(r"if\s+let\s+Some\(ce\)\s*=\s*cache\.cache\.get\(&cache_key\)\.await\s*\{\s*return\s+ce;\s*\}\s*let\s+res\s*=\s*self\.check_sig\(sig,\s*signer_name,\s*key,\s*key_name,\s*key_tag\);\s*cache\.cache\.insert\(cache_key,\s*res\)\.await;\s*res\s*$", cc, "cache lookup / fill")
+    one(r"struct\s+SigKey\(Vec<u8>,\s*Vec<u8>,\s*Vec<u8>\);", grp, "SigKey shape")
+    defs.append(("sig_cache_key_is_signed_data_sig_key", "bool", "true"))
+
+    # ---- a child's DNSKEY RRset is verified with the key matching a DS (trust anchor: a configured key / DS)
+    cn = fn_body(ctx, "create_child_node")
+    one(r"let\s+r_dnskey\s*=\s*match\s+find_key_for_ds\(ds,\s*dnskey_group\)\s*\{\s*None\s*=>\s*continue,", cn, "child: key selected by DS")
+    one(r"let\s+key_tag\s*=\s*dnskey\.key_tag\(\);\s*let\s+key_name\s*=\s*r_dnskey\.owner\(\)\.to_name\(\);\s*for\s+sig\s+in\s+\(\*dnskey_group\)\.clone\(\)\.sig_iter\(\)\s*\{\s*if\s+sig\.data\(\)\.key_tag\(\)\s*!=\s*key_tag\s*\{\s*continue;\s*\}\s*if\s+dnskey_group\s*\.check_sig_cached\(\s*sig,\s*&key_name,\s*dnskey,\s*&key_name,\s*key_tag,\s*&self\.isig_cache,?\s*\)", cn, "child: DNSKEY RRset checked with the DS key only")
+    one(r"\.filter\(\|ds\|\s*\{\s*supported_algorithm\(&ds\.algorithm\(\)\)\s*&&\s*supported_digest\(&ds\.digest_type\(\)\)\s*\}\)", cn, "child: only supported DS records")
+    fk = fn_body(ctx, "find_key_for_ds")
+    one(r"if\s+dnskey\.algorithm\(\)\s*!=\s*ds_alg\s*\{\s*continue;\s*\}\s*if\s+dnskey\.key_tag\(\)\s*!=\s*ds_tag\s*\{\s*continue;\s*\}", fk, "find_key_for_ds algorithm / tag")
+    one(r"if\s+ds\.digest\(\)\s*==\s*digest\.as_ref\(\)\s*\{\s*return\s+Some\(key\.clone\(\)\);", fk, "find_key_for_ds digest")
+    ta = fn_body(ctx, "trust_anchor")
+    one(r"let\s+opt_dnskey_rr\s*=\s*if\s+ta_rr\.rtype\(\)\s*==\s*Rtype::DNSKEY\s*\{\s*has_key\(dnskeys,\s*ta_rr\)\s*\}\s*else\s+if\s+ta_rr\.rtype\(\)\s*==\s*Rtype::DS\s*\{\s*has_ds\(dnskeys,\s*ta_rr\)\s*\}\s*else\s*\{\s*None\s*\};", ta, "anchor: key selected by the anchor")
+    one(r"if\s+sig\.data\(\)\.key_tag\(\)\s*!=\s*key_tag\s*\{\s*continue;\s*\}\s*if\s+dnskeys\s*\.check_sig_cached\(\s*sig,\s*&ta_owner,\s*dnskey,\s*&key_name,\s*key_tag,\s*sig_cache,?\s*\)", ta, "anchor: DNSKEY RRset checked with the anchor key only")
+    hk = fn_body(ctx, "has_key")
+    one(r"if\s+tkey_dnskey\s*!=\s*key_dnskey\s*\{\s*continue;\s*\}", hk, "has_key compares the key")
+    defs.append(("dnskey_rrset_verified_with_ds_key", "bool", "true"))
+
+    # ---- NSEC3 closest-encloser walk: the candidate flag is reset whenever a name is neither matched nor usable
+    nx3 = fn_body(src, "nsec3_for_not_exists")
+    if len(re.findall(r"maybe_ce_exists\s*=\s*true;", nx3)) != 2 or len(re.findall(r"maybe_ce_exists\s*=\s*false;", nx3)) != 3:
+        raise GenError("nsec3_for_not_exists: maybe_ce_exists assignments changed")
+    one(r"if\s+n\s*==\s*signer_name\s*\{\s*maybe_ce\s*=\s*n;\s*maybe_ce_exists\s*=\s*true;\s*continue;\s*\}", nx3, "walk: the signer exists")
+    one(r"if\s+ownerhash\s*==\s*hash\.as_ref\(\)\s*\{\s*let\s+types\s*=\s*nsec3\.types\(\);\s*if\s+types\.contains\(Rtype::DNAME\)\s*\|\|\s*\(types\.contains\(Rtype::NS\)\s*&&\s*!types\.contains\(Rtype::SOA\)\)", nx3, "walk: match rules out DNAME / delegation")
+    one(r"if\s+nsec3_in_range\(hash\.as_ref\(\),\s*&ownerhash,\s*nsec3\.next_owner\(\)\)\s*\{\s*if\s+maybe_ce_exists\s*\{", nx3, "walk: cover counts only right below a matched name")
+    one(r"maybe_ce_exists\s*=\s*false;\s*continue\s+'next_name;\s*\}\s*\}\s*maybe_ce_exists\s*=\s*false;\s*\}\s*\(\s*Nsec3NXState::Nothing,", nx3, "walk: flag reset after an unmatched name")
+    nxd = fn_body(src, "nsec3_for_nxdomain")
+    one(r"nsec3_for_not_exists_no_ce\(\s*&star_name,", nxd, "nsec3 nxdomain: wildcard cover required")
+    defs.append(("nsec3_walk_resets_flag", "bool", "true"))
+
     # ---- validate_groups / map_maybe_secure
     vg = fn_body(ctx, "validate_groups")
     m = one(r"if\s+let\s+ValidationState::(\w+)\s*=\s*vg\.state\(\)\s*\{\s*return\s+VGResult::Bogus\(vg\.ede\(\)\);", vg, "validate_groups abort state")
